@@ -239,6 +239,22 @@ def row_bool_float(c: Ctx) -> None:
         want = f64_bits(x).to_bytes(8, "big")
         c.expect_encoding(W.write_float64, R.read_float64, x, want)
     c.distinct += len(vals)
+    # NaNs are doubles too: the writer emits eight bytes with all exponent bits set and a non-zero fraction, and what the reader returns for
+    # any NaN pattern can be written back (bit-exact where Python keeps the payload, which struct does)
+    for bits in (0x7FF8000000000000, 0xFFF8000000000000, 0x7FF8000000000001, 0x7FF4000000000000, 0x7FFFFFFFFFFFFFFF):
+        pattern = bits.to_bytes(8, "big")
+        exc, v, pos = c.read(R.read_float64, pattern)
+        c.tick(R.read_float64)
+        if exc is not None or v == v or pos != 8:
+            c.bad("reader-nan:read_float64", f"read_float64({pattern.hex()}) gave {exc!r}/{v!r}")
+            continue
+        exc, got = c.write(W.write_float64, v)
+        c.tick(W.write_float64)
+        if exc is not None or len(got) != 8 or (int.from_bytes(got, "big") >> 52) & 0x7FF != 0x7FF or not int.from_bytes(got, "big") & ((1 << 52) - 1):
+            c.bad("writer-nan:write_float64", f"write_float64(NaN read from {pattern.hex()}) gave {exc!r}/{(got or b'').hex()}: not a NaN pattern")
+    exc, got = c.write(W.write_float64, float("nan"))
+    if exc is not None or len(got) != 8 or (int.from_bytes(got, "big") >> 52) & 0x7FF != 0x7FF:
+        c.bad("writer-nan:write_float64", f"write_float64(float('nan')) gave {exc!r}/{(got or b'').hex()}")
     # NaN: any payload must read back as a NaN and the canonical quiet NaN must be written as a NaN pattern
     exc, v, pos = c.read(R.read_float64, bytes.fromhex("7ff8000000000001"))
     c.tick(R.read_float64)
